@@ -441,6 +441,44 @@ theorem fitFragmentOld_not_places :
   revert this
   decide +kernel
 
+/-! ## the convergence test of `jacobi` (fixes/C20_3)
+
+  `if onorm / dnorm <= 1e-12` divided by the sum of the absolute diagonal elements, which is zero whenever the three
+  diagonal correlation sums Σxᵢxᵢ', Σyᵢyᵢ', Σzᵢzᵢ' vanish — e.g. an octahedral fragment whose target is the copy rotated by
+  120° about (1,1,1): a non-degenerate point set on which `qtrfit` raised ZeroDivisionError. The repaired test
+  `onorm <= 1e-12 * dnorm` never raises. -/
+
+/-- the repaired loop returns a state for every matrix and every sweep limit -/
+theorem jacobiLoop_total {K : Type} [Add K] [Sub K] [Mul K] [Div K] [Neg K] [OfNat K 0] [OfNat K 1] [OfNat K 2]
+    (ops : JOps K) (fuel : Nat) (st : JState K) : (jacobiLoop ops fuel st).isSome = true := by
+  induction fuel generalizing st with
+  | zero => rfl
+  | succ n ih =>
+    unfold jacobiLoop
+    simp only
+    split
+    · rfl
+    · exact ih _
+
+/-- so `jacobi` (hence `qtrfit` on lists of equal length) always returns -/
+theorem jacobi_total {K : Type} [Add K] [Sub K] [Mul K] [Div K] [Neg K] [OfNat K 0] [OfNat K 1] [OfNat K 2]
+    (ops : JOps K) (n : S4 K) (maxsweeps : Nat) : (jacobi ops n maxsweeps).isSome = true := by
+  unfold jacobi
+  simp only [Option.isSome_map]
+  exact jacobiLoop_total ops maxsweeps _
+
+def opsQ : JOps Rat :=
+  { abs := fun x => if x < 0 then -x else x, sqrt := id, lt := fun a b => decide (a < b), le := fun a b => decide (a ≤ b),
+    isZero := fun x => x == 0, half := 1 / 2, eps := 1 / 1000000000000 }
+
+/-- the octahedron (±1,0,0), (0,±2,0), (0,0,±3) and its image under (x,y,z) ↦ (z,x,y) -/
+def octaSrc : List (P3 Rat) := [⟨1, 0, 0⟩, ⟨-1, 0, 0⟩, ⟨0, 2, 0⟩, ⟨0, -2, 0⟩, ⟨0, 0, 3⟩, ⟨0, 0, -3⟩]
+def octaTgt : List (P3 Rat) := octaSrc.map fun p => ⟨p.z, p.x, p.y⟩
+
+/-- on this pair the quadratic form has a zero diagonal and the code before fixes/C20_3 raised (model: `none`) -/
+theorem jacobi_old_fails_on :
+    (qform octaSrc octaTgt).map (fun n => (jacobiOld opsQ n 30).isSome) = some false := by decide +kernel
+
 /-! ## the tie to the traced source (`ShelxModel/Extracted/C20Src.lean`, regenerated on every run)
 
   `extract/trace_c20.py` runs quatfit.py's own functions on symbolic numbers (`extract/symtrace.py`); what CPython
